@@ -237,6 +237,8 @@ def build_table() -> None:
     E("warn_unreachable", "unreachable", F, T)
     E("warn_unused_ignores", "unused_ignore", F, T)
     E("debug_cache", "sink", F, T, same=True, tier="thorough")
+    # with --debug-cache in both runs the snapshot is the un-hashed dict: a key option must still be compared
+    E("strict_optional", "optional", T, F, extra=["debug_cache = True"], only=["config"], tag="debug-cache")
     # ---- global key options
     E("platform", "platform", "linux", "win32")
     E("bazel", "sink", F, T, same=True, tier="thorough")
@@ -327,7 +329,7 @@ def build_table() -> None:
         ("test_env", F, T), ("fast_exit", T, F), ("fast_module_lookup", F, T), ("disable_expression_cache", F, T),
         ("export_ref_info", F, T), ("logical_deps", F, T), ("show_traceback", F, T), ("raise_exceptions", F, T),
         ("junit_format", "global", "per_file"),
-        ("junit_xml", None, "junit.xml"), ("disable_bytearray_promotion", T, F), ("disable_memoryview_promotion", T, F),
+        ("junit_xml", None, "junit.xml"),
         ("mypyc_skip_c_generation", F, T),
     ]:
         E(attr, "sink", a, b, same=True, only=["config"], tier="quick" if attr in ("cache_fine_grained", "sqlite_num_shards") else "thorough")
@@ -338,6 +340,8 @@ NOT_TOGGLED = {
     "build_type": "overwritten by main.process_options from the kind of target (-m/-p/-c/files); not an option",
     "abs_custom_typeshed_dir": "derived: abspath(custom_typeshed_dir), computed in main.process_options",
     "report_dirs": "report generation; mypy disables cache reading when reports are requested (build.py: 'if not options.report_dirs' guards)",
+    "disable_bytearray_promotion": "derived: overwritten from strict_bytes by Options.process_strict_bytes (main.process_options); toggled through strict_bytes",
+    "disable_memoryview_promotion": "derived: overwritten from strict_bytes by Options.process_strict_bytes; toggled through strict_bytes",
     "disabled_error_codes": "derived from disable_error_code/enable_error_code (process_error_codes, apply_changes); toggled through them",
     "enabled_error_codes": "derived from enable_error_code/disable_error_code; toggled through them",
     "config_file": "location of the configuration; its content is the other options",
@@ -650,21 +654,28 @@ def make_template(root: str) -> str:
 
 def run_matrix(vs: list[dict[str, Any]], jobs: int, log=print, use_template: bool = True,
                both: bool = True) -> list[dict[str, Any]]:
+    """Per variant: v["one_dir"] (default: not `both`) = only A->B (3 runs: run 1 with A, run 2 with B, reference cold B;
+    with v["scrub_ref"] the reference is taken in the same chain), otherwise both directions (4 runs: the first run of
+    each chain is the reference of the other).  v["truecold"] chains start from an empty cache directory, the others
+    from a typeshed-only cache made with default options."""
     root = tempfile.mkdtemp(prefix="verif-c09-")
     try:
         t = time.time()
         template = make_template(root) if use_template else None
-        log(f"template cache: {time.time()-t:.1f}s; {len(vs)} variants x " + ("2 directions x 2 runs" if both else "1 direction (A->B): 3 runs"))
+        n1 = sum(1 for v in vs if v.get("one_dir", not both))
+        log(f"template cache: {time.time()-t:.1f}s; {len(vs)} variants: {n1} one direction (3 runs), {len(vs)-n1} both directions (4 runs); "
+            f"{sum(1 for v in vs if v.get('truecold') or template is None)} from an empty cache")
         for v in vs:
             if v.get("special"):
                 special_variant(v)
         with ThreadPoolExecutor(max_workers=jobs) as ex:
             futs = []
             for i, v in enumerate(vs):
-                if not both and v.get("scrub_ref"):
+                one = v.get("one_dir", not both)
+                if one and v.get("scrub_ref") and not v.get("truecold") and template is not None:
                     futs.append((ex.submit(run_chain, v, root, i, "A", template, True, True), None))
                 else:
-                    futs.append((ex.submit(run_chain, v, root, i, "A", template), ex.submit(run_chain, v, root, i, "B", template, both)))
+                    futs.append((ex.submit(run_chain, v, root, i, "A", template), ex.submit(run_chain, v, root, i, "B", template, not one)))
             return [combine(v, fa.result(), fb.result() if fb is not None else None) for v, (fa, fb) in zip(vs, futs)]
     finally:
         shutil.rmtree(root, ignore_errors=True)
@@ -693,26 +704,57 @@ NO_PREDICT = {
 }
 
 
-def select_variants(quick: bool) -> list[dict[str, Any]]:
+def swap_sides(v: dict[str, Any]) -> dict[str, Any]:
+    w = dict(v)
+    for x, y in (("cfgA", "cfgB"), ("flagsA", "flagsB"), ("filesA", "filesB"), ("a", "b")):
+        if x in v or y in v:
+            w[x], w[y] = v.get(y), v.get(x)
+    for k in ("filesA", "filesB"):
+        if w.get(k) is None:
+            w.pop(k, None)
+    w["swapped"] = True
+    return w
+
+
+def select_variants(quick: bool, seed: int = 0) -> list[dict[str, Any]]:
+    """quick: every entry of the quick tier once, main spelling, direction A->B.
+    thorough: every entry with its main spelling in BOTH directions, plus ONE alternative spelling (chosen by the seed
+    among the remaining ones: over the seeds every spelling is reached) in one direction (the seed decides which);
+    every fifth chain (by seed) starts from an empty cache directory instead of the typeshed-only template."""
     build_table()
     key = set(impl_sets()["affecting"])
     pm = per_module_options()
     vs = []
-    for e in TABLE:
+    for idx, e in enumerate(TABLE):
         if quick and e.get("tier") == "thorough":
             continue
         allv = variants(e, not quick)
-        if not quick:
-            vs += allv
+        if not allv:
             continue
         by = {v["spelling"]: v for v in allv}
         if e["attr"] in pm and "section" in by:
-            vs.append(by["section"])         # keeps typeshed warm: cheap
+            main = by["section"]         # keeps typeshed warm: cheap
         else:
-            v = by.get("config") or allv[0]
-            if e["attr"] in key and not v.get("special") and not v.get("truecold") and e["attr"] not in ("fixed_format_cache",):
-                v["scrub_ref"] = True       # global key option: every typeshed module is re-checked by run 2 anyway
-            vs.append(v)
+            main = by.get("config") or allv[0]
+        glob_key = (e["attr"] in key and main["spelling"] != "section" and not main.get("special")
+                    and e["attr"] not in ("fixed_format_cache",))
+        if quick:
+            main["one_dir"] = True
+            main["scrub_ref"] = glob_key    # global key option: every typeshed module is re-checked by run 2 anyway
+            vs.append(main)
+            continue
+        main["one_dir"] = False
+        main["truecold"] = main.get("truecold") or (seed + idx) % 5 == 0
+        vs.append(main)
+        alts = [v for v in allv if v is not main and not v.get("special")]
+        if alts:
+            alt = alts[(seed + idx) % len(alts)]
+            if (seed + idx) % 2:
+                alt = swap_sides(alt)
+            alt["one_dir"] = True
+            alt["scrub_ref"] = e["attr"] in key and alt["spelling"] in ("config", "cmdline") and e["attr"] not in ("fixed_format_cache",)
+            alt["truecold"] = alt.get("truecold") or (seed + idx) % 5 == 2
+            vs.append(alt)
     return vs
 
 
@@ -860,9 +902,12 @@ def run(ctx: vlib.Ctx) -> None:
     ]
     classes: dict[str, Any] = {}
     try:
+        classes = classification()      # independent of the translator: C/S still judge with it when T fails
+    except Exception as e:  # noqa
+        ctx.broke("T", "classification file", repr(e))
+    try:
         t09.generate()
         tab = table()
-        classes = classification()
         names = [n for n, _ in tab["attrs"]]
         missing = [n for n in names if n not in classes]
         extra = [n for n in classes if n not in names]
@@ -887,7 +932,7 @@ def run(ctx: vlib.Ctx) -> None:
             ctx.log("attributes whose classification contradicts the generated table:", out[0])
             ctx.broken[-1]["data"] = {"failing_attributes": out[0]}
     # C + S
-    vs = select_variants(ctx.quick)
+    vs = select_variants(ctx.quick, ctx.seed)
     only = os.environ.get("VERIF_C09_ONLY")
     if only:
         # developer aid (mutation experiments): restrict the matrix; never set by bin/check or bin/setup
@@ -895,7 +940,7 @@ def run(ctx: vlib.Ctx) -> None:
         ctx.log(f"VERIF_C09_ONLY: matrix restricted to {len(vs)} variants")
     t = time.time()
     c0 = os.times()
-    results = run_matrix(vs, vlib.NPROC, log=ctx.log, use_template=ctx.quick, both=not ctx.quick)
+    results = run_matrix(vs, vlib.NPROC, log=ctx.log, use_template=True)
     c1 = os.times()
     ctx.cov["matrix_cpu_s"] = round((c1.children_user + c1.children_system) - (c0.children_user + c0.children_system), 1)
     ctx.log(f"toggle matrix: {len(vs)} variants, {sum(r['runs'] for r in results)} mypy runs in {time.time()-t:.1f}s wall, {ctx.cov['matrix_cpu_s']}s CPU")
